@@ -151,6 +151,49 @@ fn pnm_write_faults(w: u32, h: u32, r: &mut Report) {
     }}
 }
 
+/// Readers as an operating system hands them out: a read may return fewer bytes than asked for, and may fail with
+/// ErrorKind::Interrupted, which means "try again" (std's own adapters retry it). `plan[k]` is the answer to the k-th call:
+/// 0 = interrupted, n > 0 = at most n bytes; after the plan runs out, everything asked for.
+struct Moody<'a> { data: &'a [u8], pos: usize, plan: Vec<u8>, call: usize }
+impl std::io::Read for Moody<'_> {
+    fn read(&mut self, buf: &mut [u8]) -> std::io::Result<usize> {
+        let a = self.plan.get(self.call).copied();
+        self.call += 1;
+        if a == Some(0) { return Err(std::io::Error::new(std::io::ErrorKind::Interrupted, "EINTR")); }
+        let n = buf.len().min(self.data.len() - self.pos).min(a.map_or(usize::MAX, |n| n as usize));
+        buf[..n].copy_from_slice(&self.data[self.pos..self.pos + n]);
+        self.pos += n;
+        Ok(n)
+    }
+}
+
+/// Every environment answer on the way in: read_pnm over a reader that is interrupted at its k-th call (every k up to the
+/// number of calls a byte-at-a-time decoder needs), or hands out 1..3 bytes per call, decodes what parse_pnm decodes from the
+/// same bytes.
+fn pnm_read_answers(bytes: &[u8], r: &mut Report, tag: &str) {
+    let want = match caught(|| parse_pnm(bytes.iter().copied())) { Ok(w) => w.map(|b| (b.width(), b.height(), b.data().iter().map(|c| c.0).collect::<Vec<_>>())).map_err(|e| format!("{e:?}")), Err(_) => return };
+    let mut plans: Vec<Vec<u8>> = vec![vec![]];
+    for k in 0..=bytes.len() + 1 { let mut p = vec![255u8; k]; p.push(0); plans.push(p); }
+    for k in 0..bytes.len().min(24) { let mut p = vec![255u8; k]; p.extend([0, 0, 0]); plans.push(p); }
+    for n in 1..=3u8 { plans.push(vec![n; 2 * bytes.len() + 4]); }
+    plans.push((0..2 * bytes.len() + 4).map(|k| if k % 2 == 0 { 0 } else { 1 }).collect());
+    for plan in plans {
+        r.eval();
+        let desc = if plan.is_empty() { "plain".to_string() } else if plan.iter().all(|a| *a != 0) { format!("{} bytes per call", plan[0]) } else if plan.iter().filter(|a| **a == 0).count() > 3 { "interrupted at every other call, one byte each otherwise".into() } else { format!("interrupted {} time(s) from call {}", plan.iter().filter(|a| **a == 0).count(), plan.iter().position(|a| *a == 0).unwrap()) };
+        let mut rd = Moody { data: bytes, pos: 0, plan, call: 0 };
+        let got = caught(|| read_pnm(&mut rd).map(|b| (b.width(), b.height(), b.data().iter().map(|c| c.0).collect::<Vec<_>>())).map_err(|e| format!("{e:?}")));
+        let case = obj! {"kind" => "pnm-answers", "bytes" => hex(bytes)};
+        match got {
+            Err(p) => { r.violation(format!("pnm-read-panic|{tag}"), format!("read_pnm panicked on a reader ({desc}): {p}"), case); return; }
+            Ok(g) => {
+                let same = match (&g, &want) { (Ok(a), Ok(b)) => a == b, (Err(_), Err(_)) => true, _ => false };
+                if !same { r.violation(format!("pnm-read-vs-parse|reader-answers|{tag}|{}", desc.split(' ').next().unwrap_or("")), format!("read_pnm over a reader ({desc}) gives {:?} but parse_pnm on the same bytes gives {:?}; file {:?}", g.as_ref().map(|i| (i.0, i.1)), want.as_ref().map(|i| (i.0, i.1)), show(bytes)), case); return; }
+                if want.is_ok() { r.nontrivial(); }
+            }
+        }
+    }
+}
+
 /// A scratch file private to the calling thread, next to the engine binary (not under /tmp).
 fn scratch_file(ext: &str) -> std::path::PathBuf {
     let dir = std::env::current_exe().ok().and_then(|p| p.parent().map(|d| d.join("scratch"))).unwrap_or_else(|| "scratch".into());
@@ -406,6 +449,14 @@ fn run_pnm(cfg: &Cfg) -> ! {
     }
     // (1b) every failure point of the output sink, for images around and beyond BufWriter's 8 KiB
     for (w, h) in [(0u32, 0u32), (1, 1), (2, 2), (3, 5), (10, 10), (52, 52), (53, 52), (100, 100)] { pnm_write_faults(w, h, &mut rep); }
+    // (1c) every answer of the input stream: interruptions and short reads at every call, for each sub-format
+    for (tag, f) in [("P6 2x2", &b"P6 2 2 255\n\x01\x02\x03 \n#\x0a\x0d\xff000"[..]), ("P3 2x1", b"P3\n# c\n2 1\n255\n1 2 3\n40 50 60\n"), ("P5 3x1", b"P5 3 1 255\n\x00\x80\xff"), ("P2 1x2", b"P2 1 2 15 0 15"), ("P4 bitmap", b"P4 8 1\n\xa5"), ("truncated", b"P6 2 2 255\n\x01\x02\x03"), ("P6 header split by comments", b"P6#a\n 1#b\n#c\n 1\n255\n\x09\x0a\x0b")] { pnm_read_answers(f, &mut rep, tag); }
+    // (1d) headers with many digits: images whose extents have 4 .. 8 digits (the header has no fixed size)
+    for (w, h) in if quick { vec![(1000u32, 1000u32), (10000, 100), (100, 10000), (1000000, 1), (1, 1000000), (100000, 10), (99999, 10)] } else { vec![(1000u32, 1000u32), (10000, 100), (100, 10000), (1000000, 1), (1, 1000000), (100000, 10), (99999, 10), (4000, 3000), (10000000, 1), (1, 10000000), (12345, 678)] } {
+        let buf: Buf2<Color3> = Buf2::new_with((w, h), |x, y| rgb((x % 251) as u8, (y % 241) as u8, HOSTILE[((x + 2 * y) % 9) as usize]));
+        let px: Vec<[u8; 3]> = buf.data().iter().map(|c| c.0).collect();
+        pnm_roundtrip_view(buf.as_slice2(), &(w, h, px), &mut rep, &format!("owned {w}x{h} (many-digit header)"), obj! {"kind" => "pnm-digits", "w" => w, "h" => h});
+    }
     // sub-views (strided), nested
     let mut r = Report::new();
     pnm_roundtrip_subviews(&mut r, true, None);
@@ -798,6 +849,8 @@ fn main() {
                 }
                 "pnm-rt-direct" => { let mut rr = Report::new(); pnm_roundtrip_subviews(&mut rr, false, None); for (_, v) in rr.viols { if v.key.contains("direct") { r.violation(v.key, v.what, v.case); } } }
                 "pnm-faults" => pnm_write_faults(case.get("w").and_then(|j| j.as_u64()).unwrap_or(0) as u32, case.get("h").and_then(|j| j.as_u64()).unwrap_or(0) as u32, r),
+                "pnm-answers" => pnm_read_answers(&bytes, r, "replay"),
+                "pnm-digits" => { let (w, h) = (case.get("w").and_then(|j| j.as_u64()).unwrap_or(0) as u32, case.get("h").and_then(|j| j.as_u64()).unwrap_or(0) as u32); let buf: Buf2<Color3> = Buf2::new_with((w, h), |x, y| rgb((x % 251) as u8, (y % 241) as u8, HOSTILE[((x + 2 * y) % 9) as usize])); let px: Vec<[u8; 3]> = buf.data().iter().map(|c| c.0).collect(); pnm_roundtrip_view(buf.as_slice2(), &(w, h, px), r, "replay", case.clone()); }
                 "obj-total" => obj_totality(&bytes, r, "replay"),
                 "obj-long" => {
                     let (variant, n) = (case.get("variant").and_then(|j| j.as_u64()).unwrap_or(0), case.get("n").and_then(|j| j.as_u64()).unwrap_or(0));
